@@ -843,7 +843,10 @@ def gen_gauss(r):
             if integrand and shape and g.types[integrand].output != Real:
                 integrand = g.emit({"op": "evreduce", "fn": "sum", "a": integrand, "axis": None})
             if integrand:
-                out = g.emit({"op": "integrate", "a": a, "b": integrand, "vars": [n]})
+                ivars = [n]
+                if int_in and r.random() < 0.3:
+                    ivars.append(r.choice(int_in))  # a batch input summed out by the same Integrate
+                out = g.emit({"op": "integrate", "a": a, "b": integrand, "vars": ivars})
         elif c < 0.97 and real_in and int_in:
             # Independent: diagonalise a batch input into one vector-valued real input
             n = r.choice([m for m in real_in if not list(ta.inputs[m].shape)] or real_in)
